@@ -12,7 +12,7 @@ na("C14", "purely numerical post-conditions of the mesh generators (monotone coo
 
 claim(
     "C03",
-    "Static: decides, per component method and option valuation, that every read-modify-write of persistent storage (outputs, residuals, partials, self.*) is preceded in the same call by a plain store covering the region (typestate), that no branch of an evaluation method tests instance state written at run time (memo flags, cached factors), that no code writes state outside the instance (module globals, class attributes, mutable defaults), and that in run-once groups every consumer is added after its producers. Does not decide solver-level hysteresis.",
+    "Static: decides, per component method and option valuation, that every read-modify-write of persistent storage (outputs, residuals, partials, self.*) is preceded in the same call by a plain store covering the region (typestate), that no branch of an evaluation method tests instance state written at run time (memo flags, cached factors), that no code writes state outside the instance (module globals, class attributes, mutable defaults), that in run-once groups every consumer is added after its producers, that no evaluation method returns early on an input-valued condition before its outputs are written, that compute writes every declared output completely, and that linearisation methods never store into the inputs. Does not decide solver-level hysteresis.",
     TB,
     "typestate (STALE->FRESH per storage cell) over the abstract interpreter's store events with symbolic region coverage; effect analysis for writes outside the instance",
     "DESIGN.md section 2 C03",
@@ -42,14 +42,14 @@ claim(
 )
 claim(
     "C10",
-    "Static: decides symmetry of the element tables, rigid-body null space and cantilever flexibility of the bending blocks (closed form, sympy), that both stiffness transformations are congruences, that assembly keeps symmetry that exactly the six DOFs of the documented root node are clamped (index a function of the node count only), that the tiny-load threshold is an absolute constant, and that Disp reports the solution unmodified. Does not decide displacement values.",
+    "Static: decides symmetry of the element tables, rigid-body null space and cantilever flexibility of the bending blocks (closed form, sympy), that both stiffness transformations are congruences, that assembly keeps symmetry that exactly the six DOFs of the documented root node are clamped (index a function of the node count only), that the tiny-load threshold is an absolute constant, that Disp reports the solution unmodified, and that the element frames are built without any input-valued selection. Does not decide displacement values.",
     TB,
     "constant folding of module tables + sympy identities; AST pattern analysis of einsum congruences and the sparse assembly; symbolic clamp index per option valuation",
     "DESIGN.md section 2 C10",
 )
 claim(
     "C12",
-    "Static: decides that the coupled group closes the struct->mesh->aero->loads->struct cycle per surface, carries an iterative nonlinear solver that raises on non-convergence plus a capable linear solver, receives no feedback from downstream subsystems, and that no code keeps state outside the instance (flight points isolated). Does not decide convergence or equality between solvers.",
+    "Static: decides that the coupled group closes the struct->mesh->aero->loads->struct cycle per surface, carries an iterative nonlinear solver that raises on non-convergence plus a capable linear solver, receives no feedback from downstream subsystems, that no code keeps state outside the instance (flight points isolated), and -- for independence from the initial guess -- that every output is completely written and no evaluation exits early on input values. Does not decide convergence or equality between solvers.",
     TB,
     "group connection-graph analysis per option valuation; effect analysis for shared state",
     "DESIGN.md section 2 C12",
@@ -72,7 +72,7 @@ claim(
 
 claim(
     "C17",
-    "Static: decides, as identities of expressions extracted from the source for generic surfaces, that the performance functionals equal the defining formulas of the property statement (L = q S CL, area-weighted coefficients, lift-equals-weight residual and weight, Breguet fuel burn, mass-weighted cg given Equilibrium's weight, Reynolds number per length, CD sum), that their stored partials are the derivatives of those values, and that CM is normalised by a chord that depends on the first surface only. Does not decide atmosphere-table consistency or continuity.",
+    "Static: decides, as identities of expressions extracted from the source for generic surfaces, that the performance functionals equal the defining formulas of the property statement (L = q S CL, area-weighted coefficients, lift-equals-weight residual and weight, Breguet fuel burn, mass-weighted cg given Equilibrium's weight, Reynolds number per length, CD sum), that their stored partials are the derivatives of those values, that CM is normalised by a chord that depends on the first surface only, that the literal atmosphere tables are mutually consistent at every node, and that AtmosComp uses one interpolant per quantity (no branch on the altitude). Does not decide continuity of the splines themselves.",
     TB + " Symbol positivity assumptions for physical quantities (rho, v, areas, masses).",
     "source-level expression extraction (sympy) per option valuation and normal-form comparison against the formulas of the statement",
     "DESIGN.md section 2 C17",
@@ -80,7 +80,7 @@ claim(
 
 claim(
     "C09",
-    "Static: decides the algebraic skeleton of the Prandtl-Glauert pipeline: the per-axis beta exponents of geometry, normals, rotational velocities and forces equal those of the property (and reduce to 1 at M = 0) in values and partials; the aero->wind matrix is a proper rotation whose first row is the free-stream direction and the back-rotation is exactly its transpose; inside CompressibleVLMStates the inner solve is wired at alpha_pg = beta_pg = 0 with transformed geometry only. Does not decide continuity in Mach or the numerical M = 0 identity of the two solvers.",
+    "Static: decides the algebraic skeleton of the Prandtl-Glauert pipeline: the per-axis beta exponents of geometry, normals, rotational velocities and forces equal those of the property (and reduce to 1 at M = 0) in values and partials; the aero->wind matrix is a proper rotation whose first row is the free-stream direction and the back-rotation is exactly its transpose; the scale factors are not selected by an input-valued branch nor computed from a clamped Mach number; inside CompressibleVLMStates the inner solve is wired at alpha_pg = beta_pg = 0 with transformed geometry only. Does not decide continuity in Mach or the numerical M = 0 identity of the two solvers.",
     TB,
     "source-level extraction of small matrices and per-axis scale factors (sympy), group connection templates",
     "DESIGN.md section 2 C09",
@@ -96,7 +96,7 @@ claim(
 
 claim(
     "C16",
-    "Static: decides, for every option valuation, that the load vector handed to the beam solve is the aerodynamic load plus each enabled inertial/thrust source exactly once; that distributed structural and fuel weight are lumped half/half on the end nodes of each element with total -(mass) g n in z only (fuel total halved for a half model) and equal and opposite end moments; that point-mass and thrust loads use weightings that sum to one, act along (0,0,-1) with magnitude m g n and (-1,0,0) with magnitude T, and carry moments (load point - node) x force; that structural mass is k times the sum of element masses (k = 2 only under symmetry) and the cg is modified only under symmetry; and that load_factor is promoted wherever a subsystem has it. Does not decide the numerical agreement with a closed-form beam solution.",
+    "Static: decides, for every option valuation, that the load vector handed to the beam solve is the aerodynamic load plus each enabled inertial/thrust source exactly once; that distributed structural and fuel weight are lumped half/half on the end nodes of each element with total -(mass) g n in z only (fuel total halved for a half model) and equal and opposite end moments, and that the z forces summed over all nodes equal minus the total weight whatever the lumping idiom; that point-mass and thrust loads use weightings that sum to one, act along (0,0,-1) with magnitude m g n and (-1,0,0) with magnitude T, and carry moments (load point - node) x force; that structural mass is k times the sum of element masses (k = 2 only under symmetry) and the cg is modified only under symmetry; and that load_factor is promoted wherever a subsystem has it. Does not decide the numerical agreement with a closed-form beam solution.",
     TB,
     "source-level expression extraction (sympy, uninterpreted axis-sum and cross), store-event algebra on the load array, group promotion model, extensivity typing",
     "DESIGN.md section 2 C16",
@@ -104,7 +104,7 @@ claim(
 
 claim(
     "C18",
-    "Static: decides the switch clause (option off: literal 0 value and zero partials), the wiring of the lift coefficient into the wave-drag estimate and of the three drag parts into the sum, and -- on the expressions extracted from compute() -- that the per-panel skin-friction coefficient is positive and decreases with the chord Reynolds number in the fully turbulent and fully laminar branches (interval proof; mixed branch: positivity proved, monotonicity searched for counterexamples only), that the form factor is positive and increases with t/c, and that the wave drag is exactly 0 up to Mcrit and 20 (M - Mcrit)^4 beyond it (C3 junction) with the Korn drag-divergence Mach number, growing with Mach number and lift. Does not decide independence of the panel count.",
+    "Static: decides the switch clause (option off: literal 0 value and zero partials), the wiring of the lift coefficient into the wave-drag estimate and of the three drag parts into the sum, and -- on the expressions extracted from compute() -- that the per-panel skin-friction coefficient is positive and decreases with the chord Reynolds number in the fully turbulent and fully laminar branches (interval proof; mixed branch: positivity proved, monotonicity searched for counterexamples only), that the form factor is positive and increases with t/c, and that the wave drag is exactly 0 up to Mcrit and 20 (M - Mcrit)^4 beyond it (C3 junction) with the Korn drag-divergence Mach number, growing with Mach number and lift, and that the friction formula and every intermediate reaching it are finite at both ends of the laminar-fraction range. Does not decide independence of the panel count.",
     TB + " Interval arithmetic of mpmath.",
     "source-level expression extraction (sympy); interval branch-and-bound and sign reasoning on the extracted expressions; group dataflow",
     "DESIGN.md section 2 C18",
@@ -112,7 +112,7 @@ claim(
 
 claim(
     "C07",
-    "Static: decides two structural necessary conditions of mirror symmetry for half models: the two components that detect the hand of a symmetric half (VortexMesh, EvalVelMtx) use complementary strict comparisons of |y| at the first and last spanwise node of the same mesh in set-up, evaluation and linearisation; and the geometry design variables do not contradict that: the sweep / dihedral displacement of a half is invariant under the mirror map (decided on the extracted expression), and taper / twist do not hard-wire the last spanwise node as the root without testing the hand. Does not decide the reflection equivariance of forces, displacements or stresses, nor the wingbox end-node stress recovery.",
+    "Static: decides two structural necessary conditions of mirror symmetry for half models: the two components that detect the hand of a symmetric half (VortexMesh, EvalVelMtx) use complementary strict comparisons of |y| at the first and last spanwise node of the same mesh in set-up, evaluation and linearisation; and the geometry design variables do not contradict that: the sweep / dihedral displacement of a half is invariant under the mirror map (decided on the extracted expression), taper / twist do not hard-wire the last spanwise node as the root without testing the hand, the stretched span coordinate is odd under the mirror map, and the right-wing re-indexing of the influence array reverses the spanwise axis only. Does not decide the reflection equivariance of forces, displacements or stresses, nor the wingbox end-node stress recovery.",
     TB,
     "AST canonicalisation of the orientation predicates; source-level expression extraction (sympy) with a mirror substitution; contradiction rule over enumerated root idioms",
     "DESIGN.md section 2 C07",
@@ -120,7 +120,7 @@ claim(
 
 claim(
     "C05",
-    "Static: decides the structural clauses of the vortex-lattice method for every option valuation: the finite filaments EvalVelMtx adds for each (image) surface form a closed directed ring over the four panel corners with one strength, the last row sheds the reversed rear segment into two semi-infinite legs of opposite sign along (cos alpha, 0, sin alpha) so that no filament ends in the fluid; collocation points, force points, bound vectors and vortex-ring rows are the 3/4- and 1/4-chord stencils of the mesh corners with the trailing edge kept; the panel force is rho Gamma (v x l); the tangency system is -(v.n) and (AIC.n). Does not decide kernel values, the solve, the tangency residual or agreement with an independent solver.",
+    "Static: decides the structural clauses of the vortex-lattice method for every option valuation: the finite filaments EvalVelMtx adds for each (image) surface form a closed directed ring over the four panel corners with one strength, the last row sheds the reversed rear segment into two semi-infinite legs of opposite sign along (cos alpha, 0, sin alpha) so that no filament ends in the fluid; collocation points, force points, bound vectors and vortex-ring rows are the 3/4- and 1/4-chord stencils of the mesh corners with the trailing edge kept; the panel force is rho Gamma (v x l); the tangency system is -(v.n) and (AIC.n); the lattice is built from the current def_mesh input, never from the set-up mesh. Does not decide kernel values, the solve, the tangency residual or agreement with an independent solver.",
     TB + " The Biot-Savart kernels are uninterpreted functions of the corner arrays they are applied to.",
     "source-level expression extraction (sympy) with uninterpreted kernel helpers; signed incidence of the filament graph; stencil coefficients",
     "DESIGN.md section 2 C05",
@@ -128,7 +128,7 @@ claim(
 
 claim(
     "C06",
-    "Static: decides dimensional homogeneity of every compute() by unit inference seeded with the declared input units (one dimension per + - compare, dimensionless arguments of transcendental functions, inferred dimension of each output equal to its declared unit, coefficients dimensionless, one dimension per variable name across components, no dimensional constants beyond the documented ones), which by the Pi theorem is the density-, speed- and length-scaling law up to those constants; that lift and drag are the components of the summed panel forces along the unit free-stream direction used by ConvertVelocity and along a unit normal to it; that the moment and the rotational velocity depend on positions only through differences (translation law); that CL1 = L/(qS), CDi = D/(qS) and the aircraft coefficients are the reference-area-weighted combination; and that the panel force is rho Gamma (v x l). Does not decide the scaling of the solved circulations through the linear system or the kernel's translation invariance.",
+    "Static: decides dimensional homogeneity of every compute() by unit inference seeded with the declared input units (one dimension per + - compare, dimensionless arguments of transcendental functions, inferred dimension of each output equal to its declared unit, coefficients dimensionless, one dimension per variable name across components, no dimensional constants beyond the documented ones), which by the Pi theorem is the density-, speed- and length-scaling law up to those constants; that lift and drag are the components of the summed panel forces along the unit free-stream direction used by ConvertVelocity and along a unit normal to it; that the moment and the rotational velocity depend on positions only through differences (translation law); that CL1 = L/(qS), CDi = D/(qS) and the aircraft coefficients are the reference-area-weighted combination; that the panel force is rho Gamma (v x l); that the flight-condition inputs, the reference point and the rotation rate are exposed wherever a subsystem has them and that explicit wiring between sibling subsystems is complete. Does not decide the scaling of the solved circulations through the linear system or the kernel's translation invariance.",
     TB + " Unit strings are interpreted by a table of OpenMDAO unit names (oasa/unit.py BASE).",
     "abstract interpretation with a physical-dimension domain; source-level expression extraction (sympy) with bilinear normalisation of the cross product; cross-component agreement",
     "DESIGN.md section 2 C06",
@@ -136,7 +136,7 @@ claim(
 
 claim(
     "C13",
-    "Static: decides, as identities of the expressions extracted from the source for arbitrary input meshes, that every transformation except Stretch returns its input mesh when its design variable has the default value (taper 1, chord 1, sweep / dihedral / shears / twist 0) under every option valuation, that GeometryMesh chains the nine transformations in the documented order with identity defaults and a default span consistent with Stretch, that sweep and dihedral displace x and z by tan(angle) times the distance from the root with the documented sign on both halves, that the taper weight is 1 at the tip(s) and 0 at the root with a linear blend, and that reference-axis and design-variable defaults are taken by key presence. Does not decide Stretch's identity, area / chord-length invariants or B-spline behaviour.",
+    "Static: decides, as identities of the expressions extracted from the source for arbitrary input meshes, that every transformation except Stretch returns its input mesh when its design variable has the default value (taper 1, chord 1, sweep / dihedral / shears / twist 0) under every option valuation, that GeometryMesh chains the nine transformations in the documented order with identity defaults and a default span consistent with Stretch, that sweep and dihedral displace x and z by tan(angle) times the distance from the root with the documented sign on both halves, that the taper weight is 1 at the tip(s) and 0 at the root with a linear blend (also when computed in a helper), that every transformation with a reference-axis option receives the surface's reference axis, and that reference-axis and design-variable defaults are taken by key presence. Does not decide Stretch's identity, area / chord-length invariants or B-spline behaviour.",
     TB,
     "source-level expression extraction (sympy) with substitution of the default parameter values, uninterpreted concatenation / contraction, group model of GeometryMesh under fixed key-presence policies",
     "DESIGN.md section 2 C13",
@@ -144,7 +144,7 @@ claim(
 
 claim(
     "C15",
-    "Static: decides, as identities of the per-element expressions extracted from the source, that the KS aggregate is the max-shifted log-sum-exp of stress/yield - 1 on every path (which implies max <= KS <= max + ln N / rho and overflow safety), that the exact failure is stress/yield - 1, that every stored von Mises stress is positively homogeneous of degree one in the element's local displacements with strength factors dividing the whole combined stress, and that rigid translations and small rigid rotations of an element give zero stress. Does not decide agreement with closed-form section stresses (the local-axis construction is opaque).",
+    "Static: decides, as identities of the per-element expressions extracted from the source, that the KS aggregate is the max-shifted log-sum-exp of stress/yield - 1 on every path (which implies max <= KS <= max + ln N / rho and overflow safety), that the exact failure is stress/yield - 1 with the surface's yield stress itself as allowable, that every stored von Mises stress is positively homogeneous of degree one in the element's local displacements with strength factors dividing the whole combined stress, and that rigid translations and small rigid rotations of an element give zero stress. Does not decide agreement with closed-form section stresses (the local-axis construction is opaque).",
     TB,
     "source-level expression extraction with value numbering of the local displacement components (sympy), substitution identities",
     "DESIGN.md section 2 C15",
